@@ -178,20 +178,34 @@ func c14cInstallChunkHook() func() {
 // ---------------------------------------------------------------- histories
 
 // A step is one call (sequential) or two concurrent calls on different scopes (group).
-type c14cStep [2]string // event per scope, "" = none
+// [0], [1] = event per scope ("" = none); [2] = order of the two requests inside the batch:
+// "" = whatever the goroutines produce, "A" = scope A's request is queued first, "B" = scope
+// B's first (see c14cRunStepOrdered).
+type c14cStep [3]string
 
 func (s c14cStep) String() string {
 	var p []string
-	for i, e := range s {
-		if e != "" {
-			p = append(p, c14cNames[i]+"."+e)
+	for i := 0; i < 2; i++ {
+		if s[i] != "" {
+			p = append(p, c14cNames[i]+"."+s[i])
 		}
+	}
+	switch {
+	case s[2] == "A" && len(p) == 2:
+		return p[0] + ">>" + p[1]
+	case s[2] == "B" && len(p) == 2:
+		return p[1] + ">>" + p[0]
+	case s[2] != "" && len(p) == 1:
+		if (s[2] == "A") == (s[0] != "") {
+			return p[0] + ">>noop"
+		}
+		return "noop>>" + p[0]
 	}
 	return strings.Join(p, "||")
 }
 
 type c14cHistory struct {
-	start string // "empty" | "warm" | "warm-reopened"
+	start string // "empty" | "warm" | "warm-reopened" | "warm+Bcommit" (B additionally commits entry 3, so that an applied mark is enabled on B)
 	steps []c14cStep
 }
 
@@ -199,7 +213,7 @@ type c14cHistory struct {
 type c14cReplay struct {
 	Group bool        `json:"group"`
 	Start string      `json:"start"`
-	Steps [][2]string `json:"steps"`
+	Steps [][3]string `json:"steps"`
 }
 
 func (p c14cReplay) history() c14cHistory {
@@ -213,7 +227,7 @@ func (p c14cReplay) history() c14cHistory {
 func (h c14cHistory) replay(group bool) c14cReplay {
 	p := c14cReplay{Group: group, Start: h.start}
 	for _, s := range h.steps {
-		p.Steps = append(p.Steps, [2]string(s))
+		p.Steps = append(p.Steps, [3]string(s))
 	}
 	return p
 }
@@ -236,7 +250,23 @@ func c14cStartModels(start string) [2]*c14model.Scope {
 			}
 		}
 	}
+	for _, x := range c14cStartExtra(start) {
+		c, _ := m[x.scope].Gen(x.ev)
+		m[x.scope].Apply(c)
+	}
 	return m
+}
+
+type c14cExtra struct {
+	scope int
+	ev    string
+}
+
+func c14cStartExtra(start string) []c14cExtra {
+	if start == "warm+Bcommit" {
+		return []c14cExtra{{1, "commit"}}
+	}
+	return nil
 }
 
 // c14cEnumerate lists every history of exactly depth steps (sequential: one call per step;
@@ -299,6 +329,8 @@ type c14cWorker struct {
 
 type c14cResult struct {
 	images, reopens, inflight, retried int64
+	ordered                            int64 // steps whose two requests were queued in a chosen order and committed as one batch
+	saveThenMark, markThenSave         int64 // ... of which: Save-like call of A first and a mark of B last / the reverse
 	ops                                map[string]int
 	violation                          *ev.Violation
 	herr                               string
@@ -314,6 +346,92 @@ func c14cOptions(snapRoot string, group bool) Options {
 }
 
 func c14cDummyCall() c14model.Call { z := uint64(0); return c14model.Call{Applied: &z} }
+
+// c14cParker stalls the write worker inside one flush (through DB.writeCommitTestHook) so that
+// later requests queue up behind it in a chosen order and are collected into ONE batch.
+type c14cParker struct {
+	arm     atomic.Bool
+	parked  chan struct{}
+	release chan struct{}
+	flushes atomic.Int64
+}
+
+func newC14cParker() *c14cParker {
+	return &c14cParker{parked: make(chan struct{}, 1), release: make(chan struct{}, 1)}
+}
+
+func (p *c14cParker) hook() {
+	p.flushes.Add(1)
+	if p.arm.CompareAndSwap(true, false) {
+		p.parked <- struct{}{}
+		<-p.release
+	}
+}
+
+var c14cPark = [2]Scope{SlotScope(1002), SlotScope(1003)} // scopes of the two preliminary writes
+
+// c14cRunStepOrdered submits the two calls of a step so that they form one batch with a
+// chosen order of the requests inside it (DB opened with WriteBatchMaxItems=2):
+//  1. two preliminary no-op marks on private scopes fill a batch; the worker is parked inside
+//     that flush (before its commit);
+//  2. the first call is submitted and we wait until its request sits in the writer's queue
+//     (len(db.writeCh) == 1), then the second (== 2) - a wait for a condition, not for time;
+//  3. the worker is released: it commits the preliminary batch, dequeues request 1, finds
+//     request 2 already queued, the batch is full and is flushed at once.
+// A nil call is replaced by a no-op mark on a private scope. Returns the calls' errors and a
+// harness error when the choreography did not happen.
+func c14cRunStepOrdered(db *DB, pk *c14cParker, calls [2]*c14model.Call, first int, started, acked *[2]atomic.Int64) ([2]error, error) {
+	ctx := context.Background()
+	var errs [2]error
+	var wg sync.WaitGroup
+	before := pk.flushes.Load()
+	pk.arm.Store(true)
+	for i := 0; i < 2; i++ {
+		wg.Add(1)
+		go func(i int) {
+			defer wg.Done()
+			_ = c14cDummyCall().Do(ctx, db.For(c14cPark[i]))
+		}(i)
+	}
+	select {
+	case <-pk.parked:
+	case <-time.After(120 * time.Second):
+		pk.arm.Store(false)
+		return errs, fmt.Errorf("ordered step: write worker did not reach the preliminary flush")
+	}
+	var herr error
+	for k, si := range [2]int{first, 1 - first} {
+		var done atomic.Bool
+		wg.Add(1)
+		go func(si int) {
+			defer wg.Done()
+			defer done.Store(true)
+			if calls[si] == nil {
+				_ = c14cDummyCall().Do(ctx, db.For(c14cDummy[si]))
+				return
+			}
+			started[si].Add(1)
+			errs[si] = calls[si].Do(ctx, db.For(c14cScopes[si]))
+			if errs[si] == nil {
+				acked[si].Add(1)
+			}
+		}(si)
+		deadline := time.Now().Add(120 * time.Second)
+		for len(db.writeCh) < k+1 && !done.Load() {
+			if time.Now().After(deadline) {
+				herr = fmt.Errorf("ordered step: request %d never reached the writer queue", k+1)
+				break
+			}
+			time.Sleep(20 * time.Microsecond)
+		}
+	}
+	pk.release <- struct{}{}
+	wg.Wait()
+	if n := pk.flushes.Load() - before; herr == nil && errs[0] == nil && errs[1] == nil && n != 2 {
+		herr = fmt.Errorf("ordered step: %d physical commits instead of 2 (preliminary batch + the ordered pair)", n)
+	}
+	return errs, herr
+}
 
 // runStep executes one step; in group mode two goroutines submit concurrently (an unpaired
 // call is paired with a no-op mark on a private dummy scope so that the batch of two fills).
@@ -412,6 +530,20 @@ func (w *c14cWorker) run(router *crashfs.Router, h c14cHistory, group bool, retr
 				models[si][0].Apply(*cs[si])
 			}
 		}
+		for _, x := range c14cStartExtra(h.start) {
+			c, ok := models[x.scope][0].Gen(x.ev)
+			if !ok {
+				return fail("start step %s not enabled", x.ev)
+			}
+			var cs [2]*c14model.Call
+			cs[x.scope] = &c
+			var d1, d2 [2]atomic.Int64
+			if errs := c14cRunStep(db, group, cs, &d1, &d2); errs[0] != nil || errs[1] != nil {
+				return fail("start step %s: %v %v", x.ev, errs[0], errs[1])
+			}
+			earlier[x.scope] = append(earlier[x.scope], models[x.scope][0].Clone())
+			models[x.scope][0].Apply(c)
+		}
 		db.gcWG.Wait()
 	}
 	if h.start == "warm-reopened" {
@@ -435,7 +567,8 @@ func (w *c14cWorker) run(router *crashfs.Router, h c14cHistory, group bool, retr
 		c14cHookMu.Unlock()
 	}()
 	db.snapshotAfterPublishTestHook = func(*stagedSnapshot) error { capture("hook:published-uncommitted"); return nil }
-	db.writeCommitTestHook = func() error { capture("hook:before-commit"); return nil }
+	pk := newC14cParker()
+	db.writeCommitTestHook = func() error { capture("hook:before-commit"); pk.hook(); return nil }
 	vol.Meta = func() any {
 		m := &c14cMeta{tree: c14cCopyTree(snapRoot)}
 		for si := 0; si < 2; si++ {
@@ -470,7 +603,28 @@ func (w *c14cWorker) run(router *crashfs.Router, h c14cHistory, group bool, retr
 			models[si] = append(models[si], next)
 			calls[si] = append(calls[si], c)
 		}
-		errs := c14cRunStep(db, group, cs, &started, &acked)
+		var errs [2]error
+		if st[2] != "" {
+			first := 0
+			if st[2] == "B" {
+				first = 1
+			}
+			var herr error
+			if errs, herr = c14cRunStepOrdered(db, pk, cs, first, &started, &acked); herr != nil {
+				vol.Stop()
+				return fail("%v", herr)
+			}
+			res.ordered++
+			if cs[0] != nil && cs[0].Save != nil && cs[1] != nil && cs[1].Save == nil {
+				if first == 0 {
+					res.saveThenMark++
+				} else {
+					res.markThenSave++
+				}
+			}
+		} else {
+			errs = c14cRunStep(db, group, cs, &started, &acked)
+		}
 		for si := 0; si < 2; si++ {
 			if errs[si] != nil {
 				vol.Stop()
@@ -568,7 +722,14 @@ func (w *c14cWorker) checkImage(dbPath, snapRoot string, group bool, h c14cHisto
 			past := append(append([]*c14model.Scope{}, earlier[si]...), models[si][:meta.acked[si]]...)
 			for _, pm := range past {
 				if len(pm.Diffs(obs[si])) == 0 {
-					return &ev.Violation{Fingerprint: "C14:acknowledged-call-lost@" + where, System: "crash", Replay: h.replay(group),
+					kind := "acknowledged-call-lost"
+					if exp := models[si][meta.acked[si]].Clone(); true {
+						exp.CfgApplied = pm.CfgApplied
+						if len(exp.Diffs(obs[si])) == 0 {
+							kind = "acknowledged-config-applied-mark-lost" // nothing but the config-applied mark is missing
+						}
+					}
+					return &ev.Violation{Fingerprint: "C14:" + kind + "@" + where, System: "crash", Replay: h.replay(group),
 						Message: fmt.Sprintf("%s: scope %s recovered exactly to an EARLIER reference state [%s]: acknowledged calls were lost (expected [%s])",
 							c14cDescribe(h, im, mode, meta), c14cNames[si], pm.Summary(), models[si][meta.acked[si]].Summary())}
 				}
@@ -625,6 +786,9 @@ func c14cRunSection(r *ev.R, router *crashfs.Router, name string, hs []c14cHisto
 		ops                                = map[string]int{}
 		done                               int64
 		capped                             atomic.Bool
+		ordered, saveThenMark, markThenSave int64
+		fps                                = map[string]int{} // violations of this section by fingerprint
+		stop                               atomic.Bool
 	)
 	deadline := r.Deadline()
 	work := make(chan c14cHistory)
@@ -638,7 +802,7 @@ func c14cRunSection(r *ev.R, router *crashfs.Router, name string, hs []c14cHisto
 			_ = os.MkdirAll(w.realDir, 0o755)
 			defer os.RemoveAll(w.realDir)
 			for h := range work {
-				if capped.Load() || r.ViolationCount() > 0 {
+				if capped.Load() || stop.Load() {
 					continue
 				}
 				if !deadline.IsZero() && time.Now().After(deadline) {
@@ -651,6 +815,19 @@ func c14cRunSection(r *ev.R, router *crashfs.Router, name string, hs []c14cHisto
 				reopens += res.reopens
 				inflight += res.inflight
 				retried += res.retried
+				ordered += res.ordered
+				saveThenMark += res.saveThenMark
+				markThenSave += res.markThenSave
+				if res.violation != nil {
+					fps[res.violation.Fingerprint]++
+					hits := 0
+					for _, n := range fps {
+						hits += n
+					}
+					if len(fps) >= 3 || hits >= 12 { // enough distinct findings / enough evidence of one
+						stop.Store(true)
+					}
+				}
 				for k, v := range res.ops {
 					ops[k] += v
 				}
@@ -692,13 +869,22 @@ func c14cRunSection(r *ev.R, router *crashfs.Router, name string, hs []c14cHisto
 		pk[k] = ops[k]
 	}
 	bounds["crash_points_by_kind"] = pk
-	r.Section(ev.Section{Name: name, Kind: "crash", Evaluations: reopens, Distinct: inflight, Validated: reopens, Exhaustive: !capped.Load() && done == int64(len(hs)),
+	r.Section(ev.Section{Name: name, Kind: "crash", Evaluations: reopens, Distinct: inflight, Validated: reopens, Exhaustive: !capped.Load() && !stop.Load() && done == int64(len(hs)),
 		Bounds: bounds, Outcomes: int64(len(ops)), Note: note, WallS: time.Since(t0).Seconds()})
 	r.Count(name+"_crash_points", images)
 	r.Count(name+"_images_reopened", reopens)
 	r.Count(name+"_images_with_call_in_flight", inflight)
 	r.Count(name+"_lost_calls_reissued", retried)
-	if r.Replay() == nil && r.ViolationCount() == 0 && !capped.Load() {
+	if group {
+		r.Count(name+"_ordered_batches", ordered)
+		r.Count(name+"_batches_save_then_mark", saveThenMark)
+		r.Count(name+"_batches_mark_then_save", markThenSave)
+		if r.Replay() == nil && len(fps) == 0 && !capped.Load() {
+			r.Guard(name+"_ordered_cross_scope_batches", saveThenMark > 0 && markThenSave > 0,
+				"one-batch pairs with a chosen request order: %d (Save-like call first, applied/config-applied mark of the other scope last: %d; mark first: %d)", ordered, saveThenMark, markThenSave)
+		}
+	}
+	if r.Replay() == nil && len(fps) == 0 && r.ViolationCount() == 0 && !capped.Load() {
 		r.Guard(name+"_in_flight_images", inflight > 0, "%d images captured strictly inside a call", inflight)
 		r.Guard(name+"_lost_call_reissued", retried > 0, "%d recovered stores had lost the in-flight call and took the retry", retried)
 		r.Guard(name+"_snapshot_dir_capture_points", ops["hook:published-uncommitted"] > 0 && ops["hook:before-chunk"] > 0, "published-uncommitted=%d before-chunk=%d", ops["hook:published-uncommitted"], ops["hook:before-chunk"])
